@@ -27,7 +27,22 @@ func compileBundle(names, srcs []string, globals map[string]ref.Value) (c *compi
 			b.AddTemplateString(names[i], srcs[i])
 		}
 		if len(globals) > 0 {
-			b.AddGlobalsMap(toDataMap(globals))
+			if len(srcs[0])%2 == 0 {
+				// through the globals file syntax (NAME = literal) and its parser
+				var gf strings.Builder
+				gf.WriteString("// generated globals\n\n")
+				for _, k := range ref.SortedKeys(globals) {
+					fmt.Fprintf(&gf, "%s = %s\n", k, gen.PrintExpr(gen.Lit(globals[k])))
+				}
+				m, gerr := soy.ParseGlobals(strings.NewReader(gf.String()))
+				if gerr != nil {
+					err = fmt.Errorf("globals file rejected: %v\n%s", gerr, gf.String())
+					return
+				}
+				b.AddGlobalsMap(m)
+			} else {
+				b.AddGlobalsMap(toDataMap(globals))
+			}
 		}
 		reg, e := b.Compile()
 		if e != nil {
